@@ -164,7 +164,7 @@ def quats_of(Rs):
     return np.array([rm.quat_wxyz_from_rot(R) for R in Rs])
 
 
-def make_evo(arr, mode="se3", stamped=True, meta=None):
+def make_evo(arr, mode="se3", stamped=True, meta=None, flavour="array64"):
     """
     Build a fresh evo object from arrays.  mode 'se3': from 4x4 matrices; 'xyzq': from
     positions + quaternions.  All arrays are copies, so the evo object owns its data.
@@ -173,16 +173,27 @@ def make_evo(arr, mode="se3", stamped=True, meta=None):
     if mode == "se3":
         poses = [rm.se3(R, p) for R, p in zip(arr["R"], arr["p"])]
         if stamped:
-            return PoseTrajectory3D(poses_se3=poses, timestamps=np.array(arr["t"], dtype=float),
+            ts = np.array(arr["t"], dtype=float)
+            return PoseTrajectory3D(poses_se3=poses, timestamps=ts.tolist() if flavour == "lists" else ts,
                                     meta=meta)
         return PosePath3D(poses_se3=poses, meta=meta)
     q = quats_of(arr["R"])
+    p = np.array(arr["p"], dtype=float)
+    t = np.array(arr["t"], dtype=float) if stamped else None
+    if flavour == "lists":
+        # the constructor documents "nx3 list" / "nx4 list" / "nx1 list": plain Python lists
+        p, q = p.tolist(), q.tolist()
+        t = t.tolist() if t is not None else None
+    elif flavour == "int" and bool(np.all(p == np.round(p))) and float(np.max(np.abs(p))) < 2**50:
+        p = p.astype(np.int64).tolist()  # integer grid positions given as Python ints
     if stamped:
-        return PoseTrajectory3D(positions_xyz=np.array(arr["p"], dtype=float),
-                                orientations_quat_wxyz=q,
-                                timestamps=np.array(arr["t"], dtype=float), meta=meta)
-    return PosePath3D(positions_xyz=np.array(arr["p"], dtype=float), orientations_quat_wxyz=q,
-                      meta=meta)
+        return PoseTrajectory3D(positions_xyz=p, orientations_quat_wxyz=q, timestamps=t, meta=meta)
+    return PosePath3D(positions_xyz=p, orientations_quat_wxyz=q, meta=meta)
+
+
+def rand_flavour(rng):
+    u = rng.random()
+    return "lists" if u < .15 else "int" if u < .3 else "array64"
 
 
 def read_views(traj):
